@@ -214,11 +214,11 @@ func acceptLayers(tier string) []Layer {
 			{Name: "hash-long", Kinds: HashKinds, BufSizes: []int{16, 40, 100}, Level: 2, Inputs: StructuredSet(17, 40, 70, 130), Bound: 1},
 			{Name: "sa", Kinds: sa, BufSizes: []int{2, 3, 5, 8, 16}, Level: 0, Inputs: Union(Binary(7), ZeroA(4)), Bound: 2},
 			{Name: "sa-long", Kinds: sa, BufSizes: []int{16, 40}, Level: 0, Inputs: StructuredSet(17, 40, 70), Bound: 1},
-			{Name: "large", Kinds: Kinds, CfgsFn: largeConfigs, Inputs: Union(LargeSet(70000), LargeSet(200003)), Bound: 1, CfgPerShard: 1},
+			{Name: "large", Kinds: Kinds, CfgsFn: largeConfigs, Inputs: Union(LargeSet(140000), LargeSet(200003)), Bound: 1, CfgPerShard: 1},
 		}
 	}
 	return []Layer{
-		{Name: "large", Kinds: Kinds, CfgsFn: largeConfigs, Inputs: LargeSet(70000), Bound: 0, CfgPerShard: 1},
+		{Name: "large", Kinds: Kinds, CfgsFn: largeConfigs, Inputs: LargeSet(140000), Bound: 0, CfgPerShard: 1},
 		{Name: "hash", Kinds: HashKinds, BufSizes: []int{2, 3, 5, 8}, Level: 2, Inputs: Union(Binary(7), ZeroA(4)), Bound: 1},
 		{Name: "hash-long", Kinds: HashKinds, BufSizes: []int{16}, Level: 2, Inputs: FewLong(33), Bound: 1},
 		{Name: "sa", Kinds: sa, BufSizes: []int{2, 3, 5, 8}, Level: 0, Inputs: Binary(5), Bound: 1},
